@@ -231,3 +231,125 @@ Proof.
   split; [intros d; vm_compute; split; [discriminate | intros H; discriminate]|].
   vm_compute. split; [discriminate | split; [discriminate | exact Logic.I]].
 Qed.
+
+(* ---------------------------------------------------------------- the whole lower pass *)
+Lemma lower_mono pts : forall e,
+  (forall k, fold_left lower_step pts e k <= e k) /\
+  (forall q, In q pts -> fold_left lower_step pts e (snd q) <= fst q).
+Proof.
+  induction pts as [|p pts IH]; intros e; cbn [fold_left].
+  - split; [intros; lia | intros q []].
+  - destruct (IH (lower_step e p)) as [M1 M2].
+    assert (S1 : forall k, lower_step e p k <= e k).
+    { intros k. unfold lower_step. destruct (fst p <? e (snd p)) eqn:E; [|lia].
+      unfold upd. destruct (k =? snd p) eqn:K; [|lia]. assert (k = snd p) by lia. subst. lia. }
+    assert (S2 : lower_step e p (snd p) <= fst p).
+    { unfold lower_step. destruct (fst p <? e (snd p)) eqn:E; [|lia].
+      unfold upd. rewrite Z.eqb_refl. lia. }
+    split.
+    + intros k. specialize (M1 k). specialize (S1 k). lia.
+    + intros q [Hq|Hq]; [subst q; specialize (M1 (snd p)); lia | auto].
+Qed.
+Lemma build_lower_le m pts q : In q pts -> build_lower m pts (snd q) <= fst q.
+Proof. intros H. apply (proj2 (lower_mono pts (fun _ => m + 1))). exact H. Qed.
+
+Lemma jdesc_last_le st d : st <> [] -> jdesc st -> snd (last st d) <= snd (hd d st).
+Proof.
+  induction st as [|x st IH]; intros Hne HJ; [contradiction|].
+  destruct st as [|y st']; [cbn; lia|].
+  specialize (IH ltac:(discriminate) (jdesc_tail _ _ HJ)). pose proof (jdesc_head2 _ _ _ HJ).
+  change (last (x :: y :: st') d) with (last (y :: st') d). cbn [hd] in *. lia.
+Qed.
+Lemma last_cons_ne {A} (x : A) l d : l <> [] -> last (x :: l) d = last l d.
+Proof. destruct l; [contradiction | reflexivity]. Qed.
+
+Section LowerPass.
+  Variables (m : Z) (pts : list pt) (sj : Z).
+  Hypothesis Hleft : forall s, In s pts -> sj <= snd s.
+  Hypothesis Hmax : forall s, In s pts -> fst s <= m.
+  Let lower := build_lower m pts.
+
+  Definition lp_inv (J : Z) (st : list pt) : Prop :=
+    st <> [] /\ jdesc st /\ chain_ok st /\ (forall d, snd (hd d st) < J) /\
+    forall s, In s pts -> snd s < J ->
+      (forall d, snd s <= snd (hd d st)) /\ edges_ok st s /\ bottom_ok st s.
+
+  Lemma lp_step J st : lp_inv J st -> lp_inv (J + 1) (lower_emit m lower st J).
+  Proof.
+    intros [Hne [HJ [HC [Hhd Hall]]]]. unfold lower_emit.
+    destruct (lower J <? m + 1) eqn:E.
+    - set (p := (lower J, J)).
+      assert (Hp : snd (hd p st) < snd p) by (cbn [snd]; apply Hhd).
+      assert (Hpr : prune st p <> []) by (apply prune_nonempty; exact Hne).
+      assert (Step : forall s, (snd s <= snd (hd p st) /\ edges_ok st s /\ bottom_ok st s) \/ (snd s = snd p /\ fst p <= fst s) ->
+                     edges_ok (p :: prune st p) s /\ jdesc (p :: prune st p) /\ chain_ok (p :: prune st p))
+        by (intros s Hs; apply emit_below_step; auto).
+      assert (Hbot : forall d, last (p :: prune st p) d = last st d).
+      { intros d. rewrite last_cons_ne by exact Hpr. apply prune_last. }
+      destruct (Step p (or_intror (conj eq_refl (Z.le_refl _)))) as [_ [J' C']].
+      split; [discriminate|]. split; [exact J'|]. split; [exact C'|]. split; [intros d; cbn [hd]; unfold p; cbn [snd]; lia|].
+      intros s Hs HsJ. split; [intros d; cbn [hd]; unfold p; cbn [snd]; lia|].
+      destruct (Z_lt_le_dec (snd s) J) as [G|G].
+      + destruct (Hall s Hs G) as [A1 [A2 A3]].
+        split; [apply Step; left; auto|].
+        intros d. rewrite Hbot. apply A3.
+      + assert (Es : snd s = J) by lia.
+        split.
+        * apply Step. right. split; [exact Es|]. unfold p. cbn [fst]. unfold lower. rewrite <- Es. apply build_lower_le. exact Hs.
+        * intros d. rewrite Hbot. pose proof (jdesc_last_le st d Hne HJ) as L. specialize (Hhd d). split; lia.
+    - split; [exact Hne|]. split; [exact HJ|]. split; [exact HC|].
+      split; [intros d; specialize (Hhd d); lia|].
+      intros s Hs HsJ. apply Hall; [exact Hs|].
+      destruct (Z_lt_le_dec (snd s) J) as [G|G]; [exact G|]. exfalso.
+      assert (Es : snd s = J) by lia. pose proof (build_lower_le m pts s Hs) as L. rewrite Es in L.
+      fold lower in L. specialize (Hmax s Hs). lia.
+  Qed.
+
+  Lemma lp_fold : forall n J st, lp_inv J st ->
+    lp_inv (J + Z.of_nat n) (fold_left (lower_emit m lower) (map (fun k => J + Z.of_nat k) (seq 0 n)) st).
+  Proof.
+    induction n as [|n IH]; intros J st H.
+    - cbn. replace (J + 0) with J by lia. exact H.
+    - cbn [seq]. rewrite <- seq_shift. cbn [map fold_left]. rewrite map_map.
+      replace (J + Z.of_nat 0) with J by lia.
+      rewrite (map_ext (fun k => J + Z.of_nat (S k)) (fun k => (J + 1) + Z.of_nat k)) by (intros; lia).
+      replace (J + Z.of_nat (S n)) with ((J + 1) + Z.of_nat n) by lia.
+      apply IH. apply lp_step. exact H.
+  Qed.
+
+  Lemma lp_first p0 : In p0 pts -> snd p0 = sj -> lp_inv (sj + 1) (lower_emit m lower [] sj).
+  Proof.
+    intros Hp0 Ej. unfold lower_emit.
+    pose proof (build_lower_le m pts p0 Hp0) as L. rewrite Ej in L. fold lower in L. pose proof (Hmax p0 Hp0).
+    destruct (lower sj <? m + 1) eqn:E; [|lia]. cbn [prune].
+    split; [discriminate|]. split; [repeat constructor|]. split; [exact Logic.I|].
+    split; [intros d; cbn [hd snd]; lia|].
+    intros s Hs HsJ. pose proof (Hleft s Hs). split; [intros d; cbn [hd snd]; lia|]. split; [exact Logic.I|].
+    intros d. cbn [last snd fst]. split; [lia|]. intros Es.
+    pose proof (build_lower_le m pts s Hs) as L2. rewrite Es in L2. exact L2.
+  Qed.
+End LowerPass.
+
+(* (c) for the lower chain, all inputs: after the first EMIT loop every pixel of the label (in
+   columns start_j..end_j) lies on the inner side of, or on, every edge of the chain *)
+Theorem lower_pass_contains : forall m pts p0 e, In p0 pts ->
+  (forall s, In s pts -> snd p0 <= snd s) -> (forall s, In s pts -> fst s <= m) -> snd p0 <= e ->
+  let st1 := fold_left (lower_emit m (build_lower m pts)) (cols_up (snd p0) e) [] in
+  jdesc st1 /\ chain_ok st1 /\ forall s, In s pts -> snd s <= e -> edges_ok st1 s.
+Proof.
+  intros m pts p0 e Hp0 Hleft Hmax He st1. unfold st1, cols_up.
+  assert (En : Z.to_nat (e - snd p0 + 1) = S (Z.to_nat (e - snd p0))) by lia. rewrite En.
+  cbn [seq]. rewrite <- seq_shift. cbn [map fold_left]. rewrite map_map.
+  replace (snd p0 + Z.of_nat 0) with (snd p0) by lia.
+  rewrite (map_ext (fun k => snd p0 + Z.of_nat (S k)) (fun k => (snd p0 + 1) + Z.of_nat k)) by (intros; lia).
+  pose proof (lp_fold m pts Hmax (Z.to_nat (e - snd p0)) (snd p0 + 1) _
+                (lp_first m pts (snd p0) Hleft Hmax p0 Hp0 eq_refl)) as [_ [HJ [HC [_ Hall]]]].
+  split; [exact HJ|]. split; [exact HC|].
+  intros s Hs Hse. apply Hall; [exact Hs | lia].
+Qed.
+
+Example lower_pass_contains_ex :
+  let pts := [(0,0);(2,0);(1,1);(3,1);(0,2);(2,3)] in
+  fold_left (lower_emit 3 (build_lower 3 pts)) (cols_up 0 3) [] = [(2,3);(0,2);(0,0)]
+  /\ edges_ok [(2,3);(0,2);(0,0)] (3,1).
+Proof. vm_compute. split; [reflexivity | split; [discriminate | split; [discriminate | exact Logic.I]]]. Qed.
